@@ -34,6 +34,11 @@ type c09Case struct {
 	// UniqueParts: a partition function whose ids never repeat (one per row):
 	// every flush carries partitions no other flush has
 	UniqueParts bool `json:"unique_parts,omitempty"`
+	// EmptyProducers: extra producers hammering IngestRows with empty batches
+	// (no rows, no bytes: they fire no flush trigger of their own) while the
+	// producers of rows trickle, so most accepted batches arrive while a
+	// partially filled buffer is waiting for its trigger
+	EmptyProducers int `json:"empty_producers,omitempty"`
 }
 
 func genC09() *rapid.Generator[c09Case] {
@@ -79,6 +84,13 @@ func genC09() *rapid.Generator[c09Case] {
 			c.Producers = rapid.IntRange(2, 4).Draw(t, "fsproducers")
 			c.Flushers = 2
 			c.StallMs = 300
+		} else if chance(t, "emptymix", 25) {
+			c.EmptyProducers = rapid.IntRange(1, 3).Draw(t, "emptyproducers")
+			c.BufRows = pick(t, "embuf", []int{3, 5, 20})
+			c.BatchRows = 1
+			c.PauseUs = pick(t, "empause", []int{1000, 3000})
+			c.Producers = rapid.IntRange(1, 2).Draw(t, "emproducers")
+			c.BufTimeMs = pick(t, "embuftime", []int{0, 0, 40})
 		}
 		return c
 	})
@@ -116,8 +128,12 @@ func runC09Once(c c09Case) (accepted, answered, attempts, bound int, v *Violatio
 	var nAccepted, nAttempts int32
 	stop := make(chan struct{})
 	var wg sync.WaitGroup
-	for p := 0; p < c.Producers; p++ {
+	for p := 0; p < c.Producers+c.EmptyProducers; p++ {
 		wg.Add(1)
+		kind, pause := "good", c.PauseUs
+		if p >= c.Producers {
+			kind, pause = "empty", 0
+		}
 		go func() {
 			defer wg.Done()
 			for {
@@ -126,7 +142,7 @@ func runC09Once(c c09Case) (accepted, answered, attempts, bound int, v *Violatio
 					return
 				default:
 				}
-				b := book.NewBatch("good", "buf", c.BatchRows, parts)
+				b := book.NewBatch(kind, "buf", c.BatchRows, parts)
 				ctx, cancel := context.WithTimeout(bg, 5*time.Millisecond)
 				err := eng.IngestRows(ctx, b.Rows, b.Ch)
 				cancel()
@@ -137,8 +153,8 @@ func runC09Once(c c09Case) (accepted, answered, attempts, bound int, v *Violatio
 					b.mu.Unlock()
 					atomic.AddInt32(&nAccepted, 1)
 				}
-				if c.PauseUs > 0 {
-					time.Sleep(time.Duration(c.PauseUs) * time.Microsecond)
+				if pause > 0 {
+					time.Sleep(time.Duration(pause) * time.Microsecond)
 				}
 				if int(atomic.LoadInt32(&nAccepted)) > 20*bound+200 {
 					return // far beyond any bound: no need to go on
@@ -246,6 +262,9 @@ func runC09(c c09Case) *Violation {
 			Ev.Sample(map[string]any{"case": c, "accepted": acc, "answered_during_stall": ans, "attempts": att, "bound": bound})
 		}
 	}
+	if c.EmptyProducers > 0 {
+		Ev.Class("with-producers-of-empty-batches")
+	}
 	if c.Flushers > 0 {
 		Ev.Class("with-flush-callers")
 	}
@@ -256,7 +275,7 @@ func runC09(c c09Case) *Violation {
 }
 
 func TestC09(t *testing.T) {
-	Ev.Rule = "case = IngestBufferSize 1-8, MaxBufferedRows 1-5, 1-3 rows per batch, MaxBufferedTime 1h or 40 ms (shorter than the stall), the store stalled by a ctx-ignoring gate at the 1st/2nd CreateFile/Write/Close/Update for 150-300 ms (or, in a quarter of the cases, every Write/Close failing and the gate inside the failed flush's cleanup: the 1st/2nd Abort/TombstoneFile), 1-6 producers hammering IngestRows with 5 ms ctx timeouts (optionally trickling), 0-2 goroutines calling Flush during the stall. Oracle: at the end of the stall accepted - answered <= IngestBufferSize + 4*ceil(MaxBufferedRows/rowsPerBatch) + 2 (confirmed by two re-executions); after release Stop returns nil and every accepted batch has exactly one answer. Non-trivial: producers attempted >= 3x the bound during the stall; distinct by case."
+	Ev.Rule = "case = IngestBufferSize 1-8, MaxBufferedRows 1-5, 1-3 rows per batch, MaxBufferedTime 1h or 40 ms (shorter than the stall), the store stalled by a ctx-ignoring gate at the 1st/2nd CreateFile/Write/Close/Update for 150-300 ms (or, in a quarter of the cases, every Write/Close failing and the gate inside the failed flush's cleanup: the 1st/2nd Abort/TombstoneFile), 1-6 producers hammering IngestRows with 5 ms ctx timeouts (optionally trickling), 0-2 goroutines calling Flush during the stall; in a sixth of the cases 1-3 further producers hammer empty batches while the producers of rows trickle. Oracle: at the end of the stall accepted - answered <= IngestBufferSize + 4*ceil(MaxBufferedRows/rowsPerBatch) + 2 (confirmed by two re-executions); after release Stop returns nil and every accepted batch has exactly one answer. Non-trivial: producers attempted >= 3x the bound during the stall; distinct by case."
 	Ev.Assumptions = []string{"the bound is the harness's reading of 'ingest buffer size plus a few flushes' worth of batches': ingest queue + stalled flush + queued flush + the flush the actor is trying to enqueue, with slack"}
 	runChecks(t, "stalls", 60, 4500, genC09(), runC09)
 }
